@@ -10,6 +10,10 @@
 //	   are served in turn, so every worker gets a share whenever len(input) >= par
 //	2  unbuffered input fed by a producer goroutine that yields at random; real scheduler
 //
+//	3  volume: 1..N with N large, preloaded; many workers really in parallel (GOMAXPROCS 4..16), so that a
+//	   few-instruction window between a worker's receive and its Combine is hit; judged here, failing rounds
+//	   and two passing ones are forwarded in compact form (n instead of the input)
+//
 // With VERIF_CASES=<file> (JSON lines: monoid, par, mode, input) exactly those cases are run.
 package c10
 
@@ -43,6 +47,7 @@ type Case struct {
 	PFold    []int `json:"pfold"`
 	PClosed  bool  `json:"pclosed"`
 	Loop     int   `json:"loop"`
+	N        int   `json:"n,omitempty"` // mode 3: the input is 1..N (not listed)
 }
 
 const (
@@ -282,9 +287,44 @@ func TestC10(t *testing.T) {
 	}
 
 	kinds := 4
+	rounds := 24
 	if os.Getenv("VERIF_TIER") == "thorough" {
 		kinds = 24
+		rounds = 300
 	}
+	// volume rounds first (the distribution over workers is the real scheduler's)
+	passed, failed := 0, 0
+	for r := 0; r < rounds && failed < 3; r++ {
+		n := 200000
+		if r%3 == 0 {
+			n = 2000
+		}
+		par := []int{2, 4, 8, 16}[r%4]
+		runtime.GOMAXPROCS([]int{4, 8, 16}[r%3])
+		xs := make([]int, n)
+		for i := range xs {
+			xs[i] = i + 1
+		}
+		want := n * (n + 1) / 2
+		m := mk(mSum)
+		ctx, cancel := context.WithCancel(context.Background())
+		obs, closed := collect(fork.Fold(ctx, par, pipe.Seq(xs...), m), patience())
+		cancel()
+		ok := closed && len(obs) == 1 && obs[0] == want
+		if ok {
+			passed++
+		} else {
+			failed++
+		}
+		if !ok || (n == 2000 && passed <= 2) {
+			c := &Case{Monoid: mSum, Par: par, Mode: 3, Input: []int{}, N: n, Observed: obs, Closed: closed, PFold: []int{want}, PClosed: true, Loop: want}
+			if err := enc.Encode(c); err != nil {
+				t.Fatal(err)
+			}
+		}
+	}
+	runtime.GOMAXPROCS(runtime.NumCPU())
+	enc.Encode(map[string]any{"volume_stats": map[string]int{"passed": passed, "failed": failed}})
 	pars := []int{1, 2, 3, 4, 7}
 	for code := 0; code < nMonoids; code++ {
 		for n := 0; n <= 12; n++ {
